@@ -162,9 +162,10 @@ fn model_expr(t: &Ty, x: &str, u: &Universe) -> String {
         Ty::BoxOf(e) => model_expr(e, &format!("(&**{})", x), u),
         Ty::MapU8(e) => format!("{{ let v: Vec<(vcore::Item, vcore::Item)> = {}.iter().map(|(k, e)| (fr.uint(*k as u64), {})).collect(); fr.map(v) }}", x, model_expr(e, "e", u)),
         Ty::Struct(_) | Ty::Enum(_) | Ty::GenericInst(_) | Ty::GenericInstOpt(_) => format!("{}.to_model(fr)", x),
-        Ty::NilWith | Ty::NilOwn | Ty::NilOwnDec | Ty::NilOwnEnc => format!("(match {}.0 {{ None => vcore::Item::Null, Some(n) => fr.uint(n as u64) }})", x),
+        Ty::NilWith => format!("(match {}.0 {{ None => fr.uint(u32::MAX as u64), Some(n) => fr.uint(n as u64) }})", x),
+        Ty::NilOwn | Ty::NilOwnDec | Ty::NilOwnEnc => format!("(match {}.0 {{ None => vcore::Item::Null, Some(n) => fr.uint(n as u64) }})", x),
         Ty::OptAlias => format!("(match *{} {{ None => vcore::Item::Null, Some(n) => fr.uint(n as u64) }})", x),
-        Ty::NilFns => format!("(if {}.0.is_empty() {{ vcore::Item::Null }} else {{ fr.text(&{}.0[..]) }})", x, x),
+        Ty::NilFns => format!("fr.text(&{}.0[..])", x),
         Ty::Param => format!("crate::rt::ParamModel::pmodel({}, fr)", x),
         Ty::BoxOpt(e) => format!("(match &**{} {{ None => vcore::Item::Null, Some(inner) => {} }})", x, model_expr(e, "inner", u)),
     }
